@@ -223,7 +223,11 @@ Inductive op :=
 | OXfer (c t i : N)          (* BeginTransferRemoteSnap(cluster, term, index) *)
 | OSnapReq (c t i : N) (content : option journal)
                              (* ApplyRemoteSnapshot(skip = false); content = the checkpoint found at apply time *)
-| OSkipReq (c t i : N).      (* ApplyRemoteSnapshot(skip = true) *)
+| OSkipReq (c t i : N)       (* ApplyRemoteSnapshot(skip = true) *)
+| OSnapRpc (o : op).
+    (* the grpc handlers NotifyTransferSnap / NotifyApplySnap around o = OXfer / OSnapReq / OSkipReq on a healthy
+       single leader: pre-filter on (term, index), then the request, whose proposal is committed and applied before
+       the handler returns *)
     (* one whole ApplyRaftReqs call with entries (entry, tsok) whose proposals all commit and apply
        before it returns (single healthy leader) *)
 
@@ -259,8 +263,9 @@ Definition with_pending (nd : node) (p : list lentry) : node :=
 Definition with_snaps (nd : node) (m : snapmap) : node :=
   mkN (n_cur nd) (n_log nd) (n_snap nd) (n_pending nd) m.
 
-Definition step (nd : node) (o : op) : node * res :=
+Definition step0 (nd : node) (o : op) : node * res :=
   match o with
+  | OSnapRpc _ => (nd, RNone)
   | ODeliver e tsok propok pre =>
       if pre && prefilter (r_synced (n_cur nd)) e then (nd, RSkip)
       else if negb tsok then (nd, RErr)
@@ -310,6 +315,48 @@ Definition step (nd : node) (o : op) : node * res :=
   | OSkipReq c t i =>
       (with_pending nd (n_pending nd ++ [LSkip (mkS c t i snap_ts 0)]), ROk)
   end.
+
+Definition snap_req_pos (o : op) : option (N * N * N) :=
+  match o with
+  | OXfer c t i | OSnapReq c t i _ | OSkipReq c t i => Some (c, t, i)
+  | _ => None
+  end.
+
+Definition step (nd : node) (o : op) : node * res :=
+  match o with
+  | OSnapRpc o' =>
+      match snap_req_pos o' with
+      | None => (nd, RNone)
+      | Some (c, t, i) =>
+          (* "raft already applied": term < synced term || index <= synced index *)
+          if prefilter (r_synced (n_cur nd)) (mkS c t i 0 0) then (nd, ROk)
+          else let '(nd1, r) := step0 nd o' in
+               match r with
+               | ROk => (commit_n nd1 (length (n_pending nd1)), ROk)
+               | _ => (nd1, r)
+               end
+      end
+  | _ => step0 nd o
+  end.
+
+(* server/grpc_api.go GetApplySnapStatus: ApplySuccess(4) when the synced position covers the snapshot; otherwise the
+   status record of exactly this snapshot through applyStatusMapping, ApplyMissing(6) when there is none *)
+Definition status_mapping (st : N) : N :=
+  if st =? apply_snap_begin then 8
+  else if st =? apply_snap_transferring then 1
+  else if st =? apply_snap_transferred then 2
+  else if st =? apply_snap_applying then 3
+  else if st =? apply_snap_done then 4
+  else if st =? apply_snap_failed then 5
+  else 0.
+
+Definition apply_status_rsp (nd : node) (c t i : N) : N :=
+  let '(st, si) := match sm_get c (r_synced (n_cur nd)) with Some o => (ss_term o, ss_index o) | None => (0, 0) end in
+  if (t <=? st) && (i <=? si) then 4
+  else match snm_get c (n_snaps nd) with
+       | None => 6
+       | Some o => if same_snap o t i then status_mapping (sn_status o) else 6
+       end.
 
 Definition run (ops : list op) : node := fold_left (fun nd o => fst (step nd o)) ops init_node.
 
